@@ -116,14 +116,14 @@ def static_checks(tier):
 KINDS = ['ambiguous', 'multifile', 'prefix-keys', 'same-name-in-two-dirs', 'ambiguous', 'multifile']
 
 
-def gen_case(rng, tier, kind=None):
+def gen_case(rng, tier, kind=None, variant=0):
     kind = kind or rng.choice(KINDS)
     if kind == 'same-name-in-two-dirs':
         # an include name that exists in two search directories - as identical copies, or with different text of the same
         # length: whatever the assembler makes of it, it must make the same of it in every run and for every -I order
         cfg = P.gen_cfg(rng, zones=False, bits=16)
         body = P.render_file(random.Random(rng.randrange(1 << 30)), [{'k': 'data', 'w': 1, 'vals': [('num', rng.randint(16, 99))]}])
-        other = body if rng.random() < 0.6 else body.replace(body.strip()[-1], str((int(body.strip()[-1]) + 1) % 10) if body.strip()[-1].isdigit() else 'A')
+        other = body if variant % 2 == 0 else body.replace(body.strip()[-1], str((int(body.strip()[-1]) + 1) % 10) if body.strip()[-1].isdigit() else 'A')
         files = {'main.asm': '.byte 1\n#include "dup.asm"\n.byte 2\n', 'lib/dup.asm': body, 'other/dup.asm': other}
         return {'kind': kind, 'isa': P.make_isa(cfg), 'files': files, 'dirs': ['lib', 'other']}
     if kind == 'ambiguous':
@@ -156,7 +156,7 @@ def gen_case(rng, tier, kind=None):
 
 def generate(rng, tier):
     n = 12 if tier == 'quick' else 60
-    return [gen_case(rng, tier, KINDS[i % len(KINDS)]) for i in range(n)]     # every kind in every run
+    return [gen_case(rng, tier, KINDS[i % len(KINDS)], i // len(KINDS)) for i in range(n)]     # every kind in every run
 
 
 def to_impl(case):
@@ -179,6 +179,8 @@ def run_sub(workdir, argv, hashseed, cwd, scrub):
 
 
 def judge(case, ir, mr):
+    if 'static' in case:
+        return static_checks('quick')[0][1]        # replay of the static scan
     tier_seeds = int(os.environ.get('VERIF_HASHSEEDS', '0')) or (16 if os.environ.get('VERIF_TIER_EFFECTIVE') == 'thorough' else 4)
     tags = ['kind=' + case['kind']]
     wd = tempfile.mkdtemp(prefix='bvd_')
@@ -187,6 +189,7 @@ def judge(case, ir, mr):
             p = os.path.join(wd, rel)
             os.makedirs(os.path.dirname(p), exist_ok=True)
             open(p, 'w').write(text)
+            os.utime(p, (1700000000, 1700000000))      # equal time stamps: nothing may depend on when a file was written
         for rel, target in case.get('symlinks', {}).items():
             os.symlink(os.path.join(wd, target), os.path.join(wd, rel))
         open(os.path.join(wd, 'isa.yaml'), 'w').write(yaml.safe_dump(case['isa'], sort_keys=False))
@@ -196,8 +199,14 @@ def judge(case, ir, mr):
         for hs in range(tier_seeds):
             for fi, fmt in enumerate(fmts):
                 dirs = list(case['dirs'])
-                if (hs + fi) % 2:
-                    dirs.reverse()
+                if dirs:
+                    # every rotation, forwards and backwards: each directory is the last / the first -I in some run
+                    orders = []
+                    for k in range(len(dirs)):
+                        for o in (dirs[k:] + dirs[:k], list(reversed(dirs[k:] + dirs[:k]))):
+                            if o not in orders:
+                                orders.append(o)
+                    dirs = orders[(hs * len(fmts) + fi) % len(orders)]
                 out = os.path.join(wd, f'o_{hs}_{fmt}.bin')
                 pp = os.path.join(wd, f'p_{hs}_{fmt}.txt')
                 argv = ['compile', '-c', os.path.join(wd, 'isa.yaml'), os.path.join(wd, 'main.asm'), '-o', out, '-p', '-t', fmt,
